@@ -51,6 +51,10 @@ def base_conn(rng, i):
         c['prf'] = rng.sample(['sha1', 'sha256', 'sha512'], rng.randrange(1, 4))
     if rng.random() < 0.7:
         c['dh'] = rng.sample(['14', 15, 'modp4096', '17', 'ecp256', 20, 'ecp521', 'modp8192'], rng.randrange(1, 4))
+    if rng.random() < 0.15:
+        # a list that names one algorithm twice, literally or through a documented alias (lists merged from two sources): loaded as written
+        k_ = rng.choice(['encr', 'integ', 'prf', 'dh'])
+        c[k_] = {'encr': ['aes256', 'aes128', 'aes256'], 'integ': ['sha256', 'sha256'], 'prf': ['sha1', 'sha512', 'sha1'], 'dh': rng.choice([['14', 'modp2048'], ['ecp256', 19, '20'], [19, '19']])}[k_]
     if rng.random() < 0.5:
         c['lifetime'] = rng.choice([600, 20, '900', 86400])
     if rng.random() < 0.5:
@@ -65,6 +69,11 @@ def base_conn(rng, i):
             p['integ'] = rng.sample(['sha1', 'sha256', 'sha512'], rng.randrange(1, 3))
         if rng.random() < 0.4:
             p['dh'] = rng.sample(['14', '19', 20], rng.randrange(0, 3))
+        if rng.random() < 0.1:
+            if rng.random() < 0.5:
+                p['integ'] = rng.choice([['sha1', 'sha1'], ['sha512', 'sha256', 'sha512']])
+            else:
+                p['dh'] = rng.choice([['modp2048', 14], ['ecp384', '20', 19]])
         if rng.random() < 0.6:
             p['mode'] = rng.choice(['transport', 'tunnel'])
         if rng.random() < 0.6:
